@@ -39,7 +39,7 @@ Reading aid.
   that can be reached by names (such errors are among those `GetErrors` sweeps: `visible_error_swept`).
 
 What is claimed where.  (a) `augment_monotone`, (b) `graft_paths` + `graft_stamps` +
-`view_eq_paths`, (c) `loop_is_complete_run` + `loop_no_truncation` + `model_fuel_sufficient`,
+`grafted_namespace` + `view_eq_paths`, (c) `loop_is_complete_run` + `loop_no_truncation` + `model_fuel_sufficient`,
 (d) `augment_loop_confluent` + `collision_in_every_order`, (e) `augment_exactly_once`,
 (f) `augment_reported` (+ `augment_reported_phase` on the parametrised model).
 Outside the claim, as in the property text: the implicit case of a shorthand choice member as
@@ -133,6 +133,15 @@ theorem graft_stamps (A : Aug) (t : NLoc) (ht : A.target = some t) (c : Entry) (
     A.adds (Aug.rootLoc t c.name) (nodeData (stamp A.ns c).d) ∧ (nodeData (stamp A.ns c).d).ns = some A.ns ∧
     (nodeData (stamp A.ns c).d).name = c.name :=
   ⟨⟨t, ht, rfl, c, hc, [], rfl, _, rfl, rfl⟩, by simp [stamp, nodeData], by simp [stamp, nodeData, Entry.name]⟩
+
+/-- Attribution of descendants: `Namespace()` of a node below a stamped node — here: below the
+root of a grafted copy — is that node's stamp, as far down as no deeper node carries a stamp of
+its own (a node grafted into the copy by a further augment does, and starts its own region). -/
+theorem grafted_namespace (reg : Registry) (f : Forest) (t : Nat) (root x : Entry) (p q : Path) (n : String)
+    (ht : f.tree? t = some root) (hp : p ≠ []) (hx : root.getAt p = some x) (hn : x.d.ns = some n)
+    (hq : ∀ q' y, q' ≠ [] → q' <+: q → x.getAt q' = some y → y.d.ns = none) :
+    namespaceAt reg f (t, p ++ q) = n := by
+  simp [namespaceAt, ht, stampAt_below root x p q n hp hx hn hq]
 
 /-- The flat view as a list: for a tree whose child names are distinct at every level,
 `Spec.paths` lists exactly the locations of the view with their data. -/
@@ -366,6 +375,11 @@ example : ((loopState Chain.R 5 #[0, 1, 2] Chain.s1).forest.tree? 0).map (fun t 
 example : ((loopState Chain.R 5 #[1, 2, 0, 1, 2] Chain.s2).forest.tree? 0).map (fun t => (paths t).map fun x => (x.1, x.2.ns)) =
     some [([], none), (["top"], none), (["top", "b1"], some "urn:c"), (["top", "b1", "c1"], some "urn:b"),
       (["top", "b1", "c1", "l3"], some "urn:a"), (["top", "la"], some "urn:a")] := by decide
+/-- `Namespace()` of the chain's nodes: each link answers the module that grafted it -/
+example : ((loopState Chain.R 5 #[0, 1, 2] Chain.s1).forest.tree? 0).map (fun t =>
+      [t.stampAt [.child "top"], t.stampAt [.child "top", .child "b1"], t.stampAt [.child "top", .child "b1", .child "c1"],
+       t.stampAt [.child "top", .child "b1", .child "c1", .child "l3"]]) =
+    some [none, some "urn:c", some "urn:b", some "urn:a"] := by decide
 example : (loopState Chain.R 5 #[0, 1, 2] Chain.s1).pending.all (·.2.isEmpty) = true ∧
     (loopState Chain.R 5 #[1, 2, 0, 1, 2] Chain.s2).pending.all (·.2.isEmpty) = true := by decide
 /-- the fuel `processAll` would give (`total + 2 = 6`) and the minimal one (`mu + 1 = 5`) agree -/
